@@ -259,7 +259,7 @@ MALFORMED = [
     'a.b 1', 'a.b', 'a.b = ', 'a.b == 1', 'a.b = 1 = 2', 'a.b:\nc = 1', 'a.b:\n  c.d = 1', 'a.b:\n  c = 1\n d = 2',
     'a.b: c = 1', 'a.b:\n', 'import', 'import a.', 'import a/b', 'import a as', 'import a as b.c', 'from a import',
     'from a import b.c', 'from a b', 'from import a', 'import a b', 'include', 'include 5', 'include a.gin',
-    "include 'a' 5", 'a.b = @', 'a.b = @x/ y', 'a.b = @x()()', 'a.b = @x(1)', 'a.b = %', 'a.b = % x', 'a.b = @a .b',
+    "include 'a' 5", 'a.b = -@x', 'a.b = -@x()', 'a.b = - %m', 'a.b = [1, -@x()]', 'a.b = {-%m: 1}', 'a.b = (-\n @x)', 'a.b = @', 'a.b = @x/ y', 'a.b = @x()()', 'a.b = @x(1)', 'a.b = %', 'a.b = % x', 'a.b = @a .b',
     'a.b = 1 # ok', 'a \\\n.b = 1', 'a.\\\nb = 1', 'a/b \\\n= 1',
     'train/\\\n      fn.a = 1', 'a/\\\n  b.c = 1', 'a.\\\n  b = 1', 'ab\\\n  .c = 1', 'x.y = @a/\\\n        b()', 'x.y = %a/\\\n        b',
 ]
@@ -332,6 +332,13 @@ class StmtEngine(Engine):
           break
       tags.append('n%d' % min(len(case['stmts']), 10))
     else:
+      # a value is a literal, a reference, a macro or a container of values: a '-' in front of anything but a
+      # number is not a value and must be rejected, never silently dropped
+      import re as _re
+      for t, o in zip(case['layouts'], obs):
+        if _re.search(r'-\s*(\\\n\s*)?[@%]', t) and "'" not in t and '"' not in t and '#' not in t:
+          if not any(isinstance(st, T) and st.tag in ('SyntaxError', 'Err') for st in o):
+            fails.append(('minus-sign-silently-dropped', 'text %r was accepted as %r' % (t, C.jsonable(o))))
       # a text whose scoped name has inner whitespace / empty components / misplaced separators must not
       # be silently repaired: whatever is accepted must be spelled exactly in the text without blanks
       for t, o in zip(case['layouts'], obs):
